@@ -912,6 +912,10 @@ class Pin(Constraint):
         trial_nos = block.get_trial_numbers(self.factor, self.index, self.within_block)
         if trial_nos:
             for trial_no in trial_nos:
+                if not self.factor.applies_to_trial(trial_no // block.sustain_count(self.factor) + 1):
+                    # The factor has no level in this trial, so the level cannot be required there
+                    backend_request.cnfs.append(And([1, -1]))
+                    continue
                 var = block.get_variable(trial_no+1, (self.factor, self.level))
                 backend_request.cnfs.append(And([var]))
         else:
